@@ -205,18 +205,20 @@ Result roundtrip(const Ops<S>& o, S& sk, Rng& r, const std::string& ctx) {
   for (int i = 0; i < 3; ++i) {
     if (!rest[i]) continue;
     const std::string R = route[i];
+    // re-serialise BEFORE any query: queries may legitimately reorganise mutable internals (sorting of level 0 ...)
+    if (i < 2) {
+      Bytes b1;
+      if (guarded(F + "|reserialize-" + R + "|throws", ctx, [&] { b1 = o.to_bytes(*rest[i], 0); })) {
+        if (b1 == img) count("reserialize_identical");
+        else if (o.canon) count("reserialize_equal_after_canon_only");
+        const Bytes c1 = o.canon ? o.canon(b1) : b1;
+        VF_CHECK(c1 == c0, F + "|reserialize-" + R + "|image-differs", ctx + " " + bytes_diff(c0, c1));
+      }
+    }
     std::string obs1;
     if (guarded(F + "|observe-restored-" + R + "|throws", ctx, [&] { obs1 = o.observe(*rest[i]); })) {
       if (obs1 != obs0) { checked(); fail(F + "|restore-" + R + "|observe-differs", ctx + " " + first_diff(obs0, obs1)); }
       else checked();
-    }
-    if (i == 2) continue;   // re-serialisation of the exact-stream copy adds nothing
-    Bytes b1;
-    if (guarded(F + "|reserialize-" + R + "|throws", ctx, [&] { b1 = o.to_bytes(*rest[i], 0); })) {
-      if (b1 == img) count("reserialize_identical");
-      else if (o.canon) count("reserialize_equal_after_canon_only");
-      const Bytes c1 = o.canon ? o.canon(b1) : b1;
-      VF_CHECK(c1 == c0, F + "|reserialize-" + R + "|image-differs", ctx + " " + bytes_diff(c0, c1));
     }
   }
   // ---- continue-then-compare (mutates sk and the restored copies)
